@@ -4,6 +4,8 @@ Q = "clematis/engine/stages/t2/quality.py"
 V = "configs/validate.py"
 M = "clematis/engine/util/metrics.py"
 C2 = "clematis/engine/stages/t2/cache.py"
+SN = "clematis/engine/snapshot.py"
+A4 = "clematis/engine/apply.py"
 CASES = [
     ("frontier-cap-without-perf", "mutant", T, "    if perf_enabled and frontier_cap_cfg > 0:\n        effective_frontier_cap = min(frontier_cap_cfg, effective_queue_budget)\n", "    if frontier_cap_cfg > 0:\n        effective_frontier_cap = min(frontier_cap_cfg, effective_queue_budget)\n", "C02.DOM"),
     ("dedupe-ring-without-perf", "mutant", T, "        ring = DedupeRing(dedupe_window_cfg) if (perf_enabled and dedupe_window_cfg > 0) else None\n", "        ring = DedupeRing(dedupe_window_cfg) if (dedupe_window_cfg > 0) else None\n", "C02.DOM"),
@@ -17,7 +19,10 @@ CASES = [
     ("shadow-trace-double-gate", "mutant", Q, "            and perf_enabled\n            and metrics_enabled\n            and q_shadow\n", "            and metrics_enabled\n            and q_shadow\n", "C02.ART"),
     ("validator-injects-perf", "mutant", V, "    if \"perf\" not in cfg_in:\n        # Exclude perf defaults entirely when user didn't specify a perf section\n        defaults = dict(defaults)\n        defaults.pop(\"perf\", None)\n", "", "C02.VAL"),
     ("mmr-fallback-ungated", "mutant", Q, "                and bool(cfg_get(cfg_root, [\"t2\", \"quality\", \"enabled\"], False))\n                and bool(cfg_get(cfg_root, [\"t2\", \"quality\", \"mmr\", \"enabled\"], False))\n", "                and bool(cfg_get(cfg_root, [\"t2\", \"quality\", \"mmr\", \"enabled\"], False))\n", "C02.DOM"),
+    ("snapshot-bounds-read-live-graph-keys", "mutant", SN, [("    wmin = float(g.get(\"weight_min\", t4.get(\"weight_min\", -1.0)))\n    wmax = float(g.get(\"weight_max\", t4.get(\"weight_max\", 1.0)))\n", "    upd = g.get(\"update\") or {}\n    wmin = float(upd.get(\"clamp_min\", t4.get(\"weight_min\", -1.0)))\n    wmax = float(upd.get(\"clamp_max\", t4.get(\"weight_max\", 1.0)))\n")], None, "C02.DOM"),
+    ("snapshot-prune-by-decay-floor", "mutant", SN, "    eps = float(decay.get(\"epsilon_prune\", 0.0))\n", "    eps = float(decay.get(\"floor\", 0.0))\n", "C02.DOM"),
     # twins
+    ("snapshot-bounds-gated-live-keys", "twin", SN, [("    wmin = float(g.get(\"weight_min\", t4.get(\"weight_min\", -1.0)))\n    wmax = float(g.get(\"weight_max\", t4.get(\"weight_max\", 1.0)))\n", "    wmin = float(g.get(\"weight_min\", t4.get(\"weight_min\", -1.0)))\n    wmax = float(g.get(\"weight_max\", t4.get(\"weight_max\", 1.0)))\n    if bool(g.get(\"enabled\", False)):\n        wmin = max(wmin, float((g.get(\"update\") or {}).get(\"clamp_min\", wmin)))\n")], None, None),
     ("gate-local-predicate", "twin", T, "    if perf_enabled and frontier_cap_cfg > 0:\n        effective_frontier_cap = min(frontier_cap_cfg, effective_queue_budget)\n", "    cap_on = perf_enabled and frontier_cap_cfg > 0\n    if cap_on:\n        effective_frontier_cap = min(frontier_cap_cfg, effective_queue_budget)\n", None),
     ("gel-flag-renamed", "twin", O, "        if graph_enabled and not _dry_run:\n            t0_gel = time.perf_counter()\n", "        gel_on = graph_enabled and not _dry_run\n        if gel_on:\n            t0_gel = time.perf_counter()\n", None),
 ]
